@@ -960,14 +960,21 @@ func (s *Sim) Run() *Result {
 	if limit <= 0 {
 		limit = 5 * time.Second
 	}
-	lt := time.NewTimer(limit)
-	select {
-	case <-closeDone:
-	case <-lt.C:
+	if s.Bubble {
+		lt := time.NewTimer(limit)
+		select {
+		case <-closeDone:
+		case <-lt.C:
+			res.CloseHung = true
+			s.Tr.add(Ev{K: "note", Note: "cleanup Close did not return within the limit"})
+		}
+		lt.Stop()
+	} else if !common.WaitLive(closeDone, limit) {
+		// real clock: the limit counts time in which this process was being scheduled (a machine that stands still for
+		// a while makes every timer fire at once afterwards)
 		res.CloseHung = true
 		s.Tr.add(Ev{K: "note", Note: "cleanup Close did not return within the limit"})
 	}
-	lt.Stop()
 	t0 := time.Now()
 	if drainDone != nil {
 		lt := time.NewTimer(limit)
